@@ -325,6 +325,83 @@ Theorem C16_source_frame_untouched : forall run w path idx w' path' cp dek,
 Proof. exact prepare_spec. Qed.
 Print Assumptions C16_source_frame_untouched.
 
+(* ---------------------------------------------------------------- several calls in one exe_dir *)
+(* Velocities are regenerated several times between two clean-ups of a worker directory (once per
+   jump of a wire-fencing move); conf.<ext> / genvel.<ext> of the earlier calls are still there.
+   Files are trajectories, shooting points are (file, index).  The rule: extraction overwrites. *)
+Theorem C16_extract_overwrites : forall w fr, twrite (negb true) w FConf fr FConf = [fr].
+Proof. exact extract_overwrites. Qed.
+Print Assumptions C16_extract_overwrites.
+
+(* With that rule every call of a sequence yields exactly what it yields alone (call_alone: its own
+   operation -- engine, masses, setting, ITS draws -- on ITS shooting point as found in the
+   source files): nothing leaks from earlier calls; the source files are as before. *)
+Theorem C16_sequence_independent : forall calls w w' rs,
+  Forall from_source calls ->
+  modify_seq true w calls = Some (w', rs) ->
+  Forall2 (fun c r => call_alone w c = Some r) calls rs /\
+  (forall n, w' (FSrc n) = w (FSrc n)).
+Proof. exact modify_seq_independent. Qed.
+Print Assumptions C16_sequence_independent.
+
+Theorem C16_sequence_history_irrelevant : forall before1 before2 c w w1 rs1 w2 rs2,
+  Forall from_source (before1 ++ [c]) -> Forall from_source (before2 ++ [c]) ->
+  modify_seq true w (before1 ++ [c]) = Some (w1, rs1) ->
+  modify_seq true w (before2 ++ [c]) = Some (w2, rs2) ->
+  exists r, call_alone w c = Some r /\ last rs1 r = r /\ last rs2 r = r /\
+            rs1 = removelast rs1 ++ [r] /\ rs2 = removelast rs2 ++ [r].
+Proof. exact modify_seq_history_irrelevant. Qed.
+Print Assumptions C16_sequence_history_irrelevant.
+
+(* hence, call by call: positions, box and identities of the regenerated frame are those of THAT
+   call's shooting point, kin_old is the kinetic energy of THAT frame's velocities, and the result
+   is modify_std of that frame (so every theorem about modify_std applies to each call) *)
+Theorem C16_sequence_positions : forall e mass zm sig cs files rs,
+  seq_results true files (map (std_call e mass zm sig) cs) = Some rs ->
+  Forall2 (fun c r => let '(fno, idx, ek, s) := c in
+             exists fr, nth_error (world_of_files files (FSrc fno)) idx = Some fr /\
+               r = modify_std e mass fr ek zm sig (cols_of_stream (f_npart fr) (f_dim fr) s) /\
+               f_pos (r_frame r) = f_pos fr /\ f_box (r_frame r) = f_box fr /\ f_ids (r_frame r) = f_ids fr /\
+               (e <> Gromacs -> r_kin_old r = Some (kinetic mass (f_vel fr))))
+          cs rs.
+Proof. exact modify_seq_std_positions. Qed.
+Print Assumptions C16_sequence_positions.
+
+(* an extraction that appends (write_xyz_trajectory without append=False) breaks it: the second
+   call of a sequence reads the first call's snapshot -- its regenerated frame carries the
+   positions of the previous shooting point and kin_old is that frame's (refutation witness:
+   one atom, frames 1 and 2 of a three-frame file, CP2K statement sequence) *)
+Definition seq_frame (x v : Q) : frame := mkFrame [[x]; [0]; [0]] [[v]; [0]; [0]] [30; 30; 30] [1%Z].
+Definition seq_files : list (list frame) := [[seq_frame 1 1; seq_frame 2 3; seq_frame 5 7]].
+Definition seq_call (idx : nat) : vcall := std_call Cp2k [2] (Some false) [1] (0%Z, idx, None, [1; 0; 0]).
+
+Theorem C16_sequence_append_refuted : exists files c1 c2 r1 r2 r2',
+  from_source c1 /\ from_source c2 /\
+  seq_results false files [c1; c2] = Some [r1; r2] /\
+  call_alone (world_of_files files) c1 = Some r1 /\
+  call_alone (world_of_files files) c2 = Some r2' /\
+  f_pos (r_frame r2) = f_pos (r_frame r1) /\
+  f_pos (r_frame r2) <> f_pos (r_frame r2') /\
+  r_kin_old r2 <> r_kin_old r2' /\ r_dek r2 <> r_dek r2'.
+Proof.
+  exists seq_files, (seq_call 1), (seq_call 2).
+  eexists. eexists. eexists.
+  split; [exists 0%Z; reflexivity|]. split; [exists 0%Z; reflexivity|].
+  split; [vm_compute; reflexivity|]. split; [vm_compute; reflexivity|]. split; [vm_compute; reflexivity|].
+  split; [vm_compute; reflexivity|].
+  split; [|split]; vm_compute; intros H; discriminate H.
+Qed.
+Print Assumptions C16_sequence_append_refuted.
+
+Example C16_sequence_hypotheses_met :
+  Forall from_source [seq_call 1; seq_call 2] /\
+  seq_results true seq_files [seq_call 1; seq_call 2] =
+    Some [mkRes (seq_frame 2 1) 1 (Some (1 - 9)) (Some 9); mkRes (seq_frame 5 1) 1 (Some (1 - 49)) (Some 49)].
+Proof.
+  split; [repeat constructor; exists 0%Z; reflexivity|].
+  vm_compute. reflexivity.
+Qed.
+
 (* ---------------------------------------------------------------- reproducible from the stream *)
 (* the result depends on the random stream only through its first npart*dim values, taken in
    row-major order, and exactly that many values are consumed *)
